@@ -25,6 +25,8 @@ def cases(draw, tier):
     else:
         start = None
     return {'nl': nl, 'route': draw(gen.routes(nl)), 'start': start,
+            # the start set is any sequence of labels: a list, a tuple, the circuit's own outputs / inputs list
+            'start_as': draw(st.sampled_from(['list', 'list', 'tuple', 'live'])),
             'mode': draw(st.sampled_from(['DFS', 'BFS'])), 'inverse': draw(st.booleans()),
             'hooks': draw(st.integers(0, 31)), 'topsort_unvisited': draw(st.booleans()),
             # what the hooks read from the state mapping they are handed: own entry only, neighbours, or every gate
@@ -96,7 +98,13 @@ def check_traverse(case):
     if hooks & 16:
         kw['on_traversal_end_hook'] = lambda s: events.append(('end', dict(s)))
     fn = c.dfs if case['mode'] == 'DFS' else c.bfs
-    it = fn(start, inverse=inverse, topsort_unvisited=case['topsort_unvisited'], **kw)
+    given = start
+    how = case.get('start_as', 'list')
+    if start is not None and how == 'tuple':
+        given = tuple(start)
+    elif start is not None and how == 'live' and start == (list(c.inputs) if inverse else list(c.outputs)):
+        given = c.inputs if inverse else c.outputs
+    it = fn(given, inverse=inverse, topsort_unvisited=case['topsort_unvisited'], **kw)
     yielded = []
     for g in it:
         yielded.append(g.label)
@@ -177,6 +185,9 @@ def check_traverse(case):
         extra['end_hook_once_last_visited=reached' if ok_end else 'end_hook_other_protocol'] = 1
     cls = {case['mode'], 'inverse' if inverse else 'forward',
            'start:' + ('default' if start is None else 'empty' if not start else 'list')}
+    if start and how == 'tuple':
+        cls.add('start:tuple')
+
     if start and len(set(start)) < len(start):
         cls.add('start_repeats')
     if any(len(set(o)) < len(o) for o in ops.values()):
@@ -276,7 +287,7 @@ SPEC = {
     'assumptions': ['own reachability / cycle detection in props/c20.py'],
     'subs': [Sub('traverse', cases, check_traverse, {'quick': 3000, 'thorough': 250000}),
              Sub('cycles', cyclic_cases, check_cycles, {'quick': 1500, 'thorough': 100000})],
-    'required_classes': {'traverse': ['DFS', 'BFS', 'inverse', 'forward', 'start:list', 'start:empty',
+    'required_classes': {'traverse': ['DFS', 'BFS', 'inverse', 'forward', 'start:list', 'start:empty', 'start:tuple',
                                       'start_repeats', 'dup_operand', 'strict_subset'],
                          'cycles': ['cycle_reachable', 'cycle_unreachable', 'acyclic']},
 }
